@@ -165,7 +165,8 @@ func convJob(cf convCfg) opJob {
 
 func checkC05(c *hx.Checker) {
 	thorough := c.Tier == "thorough"
-	c.Rule = "1-D: (N,C,M) x L in 1..5 x k in 1..3 x stride, dilation in 1..3 x pads in {0,1,2}^2 x bias {absent,given} x kernel_shape {given, inferred}; " +
+	c.Rule = "batch, channel and kernel counts 1..19 one at a time (others 2) on a tiny 1-D and 2-D geometry, with and without bias; " +
+		"1-D: (N,C,M) x L in 1..5 x k in 1..3 x stride, dilation in 1..3 x pads in {0,1,2}^2 x bias {absent,given} x kernel_shape {given, inferred}; " +
 		"2-D: (N,C,M) x (H,W) in {2,3,4}^2 (all H!=W) x (kh,kw) in {1,2,3}^2 (all kh!=kw) x strides in {1,2}^2 x dilations in {1,2}^2 x (pads in {0,1}^4 with NOTSET | SAME_UPPER | SAME_LOWER | VALID) x bias; " +
 		"(N,C,M) in {(1,1,1),(2,1,1),(1,2,1),(1,1,2),(2,2,2)} (quick) / {1,2}^3 (thorough); thorough adds strides/dilations up to 3, pads up to 3 per side and H,W up to 6 pairwise on top of the full quick product; float64 on a sub-box; group != 1, 3-D input and an unknown auto_pad must be refused; " +
 		"Operator API + Model.Run (W and B as initializers) on a sub-box; instance-reuse histories. Only configurations with a non-negative padded extent are judged (others: no panic). non-trivial = every case"
